@@ -355,3 +355,166 @@ Proof.
       apply (hist_suffix m (s_dict c) (s_dictSize c)); try assumption; lia.
     + assert (ds2 = 0) as -> by lia. cbn [Z.to_nat load_list]. unfold lastn. rewrite Nat.sub_0_r. symmetry. apply skipn_all.
 Qed.
+
+(* ================================================================ establishing [hist_inv] *)
+Lemma hist_inv_nodict m c H : s_dctx c = None -> s_dictSize c = 0 -> hist_inv m c H.
+Proof.
+  intros Hd Hz. unfold hist_inv, hist_dict. rewrite Hd. cbn [fst snd]. rewrite Hz. cbn [Z.to_nat load_list].
+  split; [lia|]. unfold lastn. rewrite Nat.sub_0_r. symmetry. apply skipn_all.
+Qed.
+
+(* C12: after LZ4_loadDict(Slow) of ANY size the stream designates exactly the last min(n, 64 KB) bytes of the
+   dictionary the decoder is given *)
+Lemma loadDict_hist m a n slow :
+  0 <= n -> hist_inv m (fst (loadDict m a n slow)) (load_list m a (Z.to_nat n)).
+Proof.
+  intros Hn. pose proof (loadDict_inv m a n slow) as L. cbv zeta in L.
+  destruct L as (_ & _ & _ & L4 & _ & L6 & L7 & L8 & _).
+  set (c := fst (loadDict m a n slow)) in *.
+  unfold hist_inv, hist_dict. rewrite L4. cbn [fst snd]. rewrite load_list_length.
+  unfold HASH_UNIT in *.
+  destruct (Z_lt_ge_dec n 8) as [Hs|Hb].
+  - rewrite (L7 Hs). cbn [Z.to_nat load_list]. split; [lia|]. unfold lastn. rewrite Nat.sub_0_r, load_list_length.
+    symmetry. apply skipn_all2. rewrite load_list_length. lia.
+  - destruct (L8 ltac:(lia)) as (E1 & E2). split; [unfold KB64 in *; lia|].
+    rewrite <- load_list_suffix by (unfold KB64 in *; lia). f_equal. unfold KB64 in *. lia.
+Qed.
+
+Lemma attach_hist m c d H :
+  s_dctx d = None -> hist_inv m d H -> hist_inv m (attach_dictionary c (Some d)) H.
+Proof.
+  intros Hd (HI1 & HI2). unfold hist_inv, hist_dict in *. rewrite Hd in *. cbn [fst snd] in *.
+  unfold attach_dictionary. cbn [s_dctx s_dict s_dictSize].
+  destruct (s_dictSize d =? 0) eqn:E; cbn [fst snd view d_dict d_dictSize].
+  - cbn [Z.to_nat load_list]. split; [lia|]. unfold lastn. rewrite Nat.sub_0_r. symmetry. apply skipn_all.
+  - split; assumption.
+Qed.
+
+(* ================================================================ whole op lists *)
+(* the history the DEcoder has after an operation *)
+Definition hist_step (st : mem * sctx) (H : list Z) (o : op) : list Z :=
+  match o with
+  | OWrite _ _ | OSaveDict _ _ | OAttach None | OForceExt _ _ => H
+  | OInit | OResetFast | OFastReset _ _ _ _ | OExtState _ _ _ _ | ODestSize _ _ _ _ => []
+  | OLoadDict a n _ => load_list (fst st) a (Z.to_nat n)
+  | OAttach (Some d) => load_list (fst st) (s_dict d) (Z.to_nat (s_dictSize d))
+  | OContinue src n cap acc =>
+    if 0 <? r_ret (fast_continue (fst st) (snd st) src n cap acc) then H ++ load_list (fst st) src (Z.to_nat n) else H
+  end.
+
+(* documented preconditions along a run: the per-operation ones ([op_pre]) and, for each streaming call,
+   that the bytes the stream will use as history (after its own trimming) still are the tail of what the decoder has *)
+Fixpoint stream_pre (st : mem * sctx) (H : list Z) (ops : list op) : Prop :=
+  match ops with
+  | [] => True
+  | o :: r =>
+    op_pre st o /\
+    match o with
+    | OContinue src n _ _ => hist_inv (fst st) (fst (prelude (snd st) src n)) H
+    | _ => True
+    end /\
+    stream_pre (fst (step st o)) (hist_step st H o) r
+  end.
+
+(* every successful block of the run decodes (block specification, end conditions included) with any decoder
+   window of at least 65535 bytes of history, to exactly the bytes that were compressed *)
+Fixpoint stream_claim (st : mem * sctx) (H : list Z) (ops : list op) : Prop :=
+  match ops with
+  | [] => True
+  | o :: r =>
+    match o with
+    | OContinue src n cap acc =>
+      let res := fast_continue (fst st) (snd st) src n cap acc in
+      0 < r_ret res ->
+      r_ret res = Z.of_nat (length (r_out res)) /\
+      forall K, 65535 <= K ->
+        strict_valid (lastn (Z.to_nat K) H) (r_out res) = Some (load_list (fst st) src (Z.to_nat n))
+    | OFastReset src n cap acc =>
+      (* one-shot call on the same context, whatever its history: decodes WITHOUT any history *)
+      let res := s_fastReset (fst st) (snd st) src n cap acc in
+      0 < r_ret res ->
+      r_ret res = Z.of_nat (length (r_out res)) /\
+      strict_valid [] (r_out res) = Some (load_list (fst st) src (Z.to_nat n))
+    | OExtState src n cap acc =>
+      let res := s_extState (fst st) src n cap acc in
+      0 < r_ret res ->
+      r_ret res = Z.of_nat (length (r_out res)) /\
+      strict_valid [] (r_out res) = Some (load_list (fst st) src (Z.to_nat n))
+    | _ => True
+    end /\
+    stream_claim (fst (step st o)) (hist_step st H o) r
+  end.
+
+Lemma hist_step_ok st H o : mem_ok (fst st) -> list_ok H -> list_ok (hist_step st H o).
+Proof.
+  intros Hm HH. destruct o; cbn [hist_step]; try exact HH; try constructor; try (apply load_list_ok; exact Hm).
+  - destruct d; [apply load_list_ok; exact Hm | exact HH].
+  - destruct (0 <? r_ret (fast_continue (fst st) (snd st) src n cap acc)); [|exact HH].
+    unfold list_ok in *. apply Forall_app. split; [exact HH | apply load_list_ok; exact Hm].
+Qed.
+
+Theorem stream_roundtrip : forall ops st H,
+  state_inv st -> list_ok H -> stream_pre st H ops -> stream_claim st H ops.
+Proof.
+  induction ops as [|o r IH]; intros st H I HH P; cbn [stream_pre stream_claim] in *; [exact Logic.I|].
+  destruct P as (P1 & P2 & P3).
+  split.
+  - destruct st as [m c]. destruct I as (Hm & T & V). cbn [fst snd op_pre] in *.
+    destruct o; try exact Logic.I.
+    + destruct P1 as (R & Hn & Hs). cbv zeta. intros Hr.
+      pose proof (continue_decodes m c src n cap acc H Hm T V R Hn Hs HH P2) as D. cbv zeta in D.
+      destruct (D Hr) as (D1 & D2 & _). split; assumption.
+    + pose proof (s_fastReset_sound m c src n cap acc Hm T V) as S. cbv zeta in S. apply S.
+    + pose proof (s_extState_sound m src n cap acc Hm) as S. cbv zeta in S. apply S.
+  - apply IH; [apply step_inv; assumption | apply hist_step_ok; [apply I | exact HH] | exact P3].
+Qed.
+
+(* ================================================================ C12: the two dictionary routes, end to end *)
+(* LZ4_loadDict(Slow) of any size, then a block anywhere in memory (contiguous to the dictionary or not):
+   decodes with the dictionary bytes the decoder is given *)
+Theorem loadDict_roundtrip m a n slow src k cap acc :
+  mem_ok m -> 0 <= n -> 0 <= k <= LZ4_MAX_INPUT_SIZE -> 0 < src ->
+  let c := fst (loadDict m a n slow) in
+  let r := fast_continue m c src k cap acc in
+  0 < r_ret r ->
+  r_ret r = Z.of_nat (length (r_out r)) /\
+  forall K, 65535 <= K ->
+    strict_valid (lastn (Z.to_nat K) (load_list m a (Z.to_nat n))) (r_out r) = Some (load_list m src (Z.to_nat k)).
+Proof.
+  intros Hm Hn Hk Hs. cbv zeta. intros Hr.
+  pose proof (loadDict_inv m a n slow) as L. cbv zeta in L. destruct L as (L1 & L2 & _ & _ & _ & _ & _ & _ & _ & _ & L11).
+  pose proof (loadDict_hist m a n slow Hn) as HI.
+  set (c := fst (loadDict m a n slow)) in *.
+  pose proof (prelude_hist m c src k _ L1 L2 Hk ltac:(lia) HI) as HP.
+  pose proof (continue_decodes m c src k cap acc _ Hm L1 L11 L2 Hk Hs (load_list_ok m a (Z.to_nat n) Hm) HP) as D.
+  cbv zeta in D. destruct (D Hr) as (D1 & D2 & _). split; assumption.
+Qed.
+
+(* LZ4_attach_dictionary of a stream prepared by LZ4_loadDict(Slow) to a working stream in ANY state, then a block
+   of any size (both sides of the 4 KB copy-the-table threshold): decodes with the dictionary bytes *)
+Theorem attach_roundtrip m c0 a n slow src k cap acc :
+  mem_ok m -> table_inv c0 -> tt_inv c0 -> stream_ready c0 -> 0 <= n -> 0 <= k <= LZ4_MAX_INPUT_SIZE -> 0 < src ->
+  let d := fst (loadDict m a n slow) in
+  let c := attach_dictionary c0 (Some d) in
+  let r := fast_continue m c src k cap acc in
+  0 < r_ret r ->
+  r_ret r = Z.of_nat (length (r_out r)) /\
+  forall K, 65535 <= K ->
+    strict_valid (lastn (Z.to_nat K) (load_list m a (Z.to_nat n))) (r_out r) = Some (load_list m src (Z.to_nat k)).
+Proof.
+  intros Hm T0 V0 R0 Hn Hk Hs. cbv zeta. intros Hr.
+  pose proof (loadDict_inv m a n slow) as L. cbv zeta in L. destruct L as (_ & _ & _ & L4 & _ & _ & _ & _ & _ & L10 & _).
+  pose proof (loadDict_hist m a n slow Hn) as HI.
+  set (d := fst (loadDict m a n slow)) in *.
+  pose proof (attach_inv c0 (Some d) T0 L10) as A. cbv zeta in A. destruct A as (A1 & A2 & A3).
+  pose proof (attach_hist m c0 d _ L4 HI) as HA.
+  set (c := attach_dictionary c0 (Some d)) in *.
+  pose proof (prelude_hist m c src k _ A1 (A3 R0) Hk ltac:(lia) HA) as HP.
+  pose proof (continue_decodes m c src k cap acc _ Hm A1 (A2 V0) (A3 R0) Hk Hs (load_list_ok m a (Z.to_nat n) Hm) HP) as D.
+  cbv zeta in D. destruct (D Hr) as (D1 & D2 & _). split; assumption.
+Qed.
+
+(* the model's compression step returns the working stream only: the memory (hence the dictionary bytes) is
+   returned unchanged, and the dictionary stream is an input that has no counterpart in the result *)
+Lemma continue_mem_unchanged m c src n cap acc : fst (fst (step (m, c) (OContinue src n cap acc))) = m.
+Proof. reflexivity. Qed.
